@@ -89,7 +89,17 @@ impl Tokens {
     pub(crate) fn parse_literal(self) -> Result<UntypedExpr, Vec<ParseError>> {
         let mut parser = Parser::new(self.0);
         if let Some(token) = parser.tokens.next() {
-            parser.parse_literal(token, true).map_err(|_| parser.errors)
+            let literal = parser.parse_literal(token, true);
+            if literal.is_ok() {
+                // the whole text must be the literal
+                if let Some(Token(_, meta)) = parser.tokens.next() {
+                    parser.push_error(ParseErrorEnum::InvalidLiteral, meta);
+                }
+            }
+            match literal {
+                Ok(literal) if parser.errors.is_empty() => Ok(literal),
+                _ => Err(parser.errors),
+            }
         } else {
             let e = ParseErrorEnum::InvalidLiteral;
             let meta = MetaInfo {
@@ -1484,6 +1494,8 @@ impl Parser {
                         expr
                     }
                 } else {
+                    let tuple_end = self.expect(&TokenEnum::RightParen)?;
+                    let meta = join_meta(meta, tuple_end);
                     Expr::untyped(ExprEnum::TupleLiteral(vec![]), meta)
                 }
             }
